@@ -274,11 +274,14 @@ def gen_project(d, vast, state, pep_shaped, max_files=5, max_patterns=4, unicode
         entries.insert(d.int(0, len(entries)), [gkey, gidx])
         file_pat[g1] = list(gidx)
         file_pat[g2] = list(gidx)
+        glob_extra = None
         if d.bool():
             pats = gen_patterns(d, vast, 1, len(patterns), pep_shaped, allow_partial)
             patterns += pats
             entries.insert(d.int(0, len(entries)), [g1, [len(patterns) - 1]])
             file_pat[g1] = file_pat[g1] + [len(patterns) - 1]
+            if d.bool():
+                glob_extra = (g2, len(patterns) - 1)
     if nested:
         # a pattern whose text also occurs INSIDE the occurrences of an earlier pattern of the same file ('"{version}"'
         # next to 'ver3="{version}"'): bumpver keeps the first pattern's match and drops the overlapping one, the text
@@ -305,6 +308,13 @@ def gen_project(d, vast, state, pep_shaped, max_files=5, max_patterns=4, unicode
         regime = d.choice(regimes) if regimes else None
         files.append(gen_file(d, name, idx, len(patterns), regime, unicode_text, share_lines, once_each or (regime or "") == "mixed",
                               alone=[i for i in idx if patterns[i].get("nested")]))
+    if use_glob and glob_extra:
+        # the sibling holds text that looks like the pattern configured for the OTHER file only: it is not configured
+        # here and must stay as it is
+        for f in files:
+            if f["path"] == glob_extra[0]:
+                f["lines"].insert(d.int(0, len(f["lines"])), [["t", "not mine: " + occurrence_text(patterns[glob_extra[1]], vast, state)]])
+                f["seps"].insert(0, f["seps"][0] if f["seps"][0] else "\n")
     for f in files:
         if f["regime"] == "mixed":
             # bumpver's notion of a line differs from ours under mixed separators: plant every pattern once only
